@@ -485,6 +485,12 @@ def sc_parser_state(r):
 (def out2 @[])
 (while (parser/has-more p2) (array/push out2 (parser/produce p2)))
 (emit "parser-clone" (parser/status p2) out2)
+# an error message generated at end of input belongs to the parser; a clone taken in that state keeps its own
+# hold on it after the original is gone
+(defn mk-dead [] (def pe (parser/new)) (parser/consume pe $h1) (parser/eof pe) pe)
+(def pc (do (def pe (mk-dead)) (if (= :error (parser/status pe)) (parser/clone pe) pe)))
+(churn $k) (churn 2)
+(emit "parser-clone-error" (parser/status pc) (parser/error pc))
 """, h1=q(whole[:cut]), h2=q(whole[cut:cut2]), h3=q(whole[cut2:]), k=r.randint(1, 8))]
 
 
